@@ -86,6 +86,10 @@ pub fn mask_diff(a: &[u32], b: &[u32]) -> Option<(u32, bool)> {
 
 /// first difference between two observations, as (field, description)
 pub fn obs_diff(a: &Obs, b: &Obs, la: &str, lb: &str, mask_only: bool) -> Option<(String, String)> {
+    obs_diff_cap(a, b, la, lb, mask_only, 50_000)
+}
+
+pub fn obs_diff_cap(a: &Obs, b: &Obs, la: &str, lb: &str, mask_only: bool, cap: usize) -> Option<(String, String)> {
     if a.error != b.error {
         return Some((
             "error".into(),
@@ -137,6 +141,20 @@ pub fn obs_diff(a: &Obs, b: &Obs, la: &str, lb: &str, mask_only: bool) -> Option
             format!("{la}.accepting={:?} {lb}.accepting={:?}", a.accepting, b.accepting),
         ));
     }
+    let capped = |x: &Option<Vec<u8>>| x.as_ref().map(|v| v.len() >= cap).unwrap_or(false);
+    let long_forced = capped(&a.ff_bytes) || capped(&b.ff_bytes) || a.ff_tokens.len() >= cap / 8 || b.ff_tokens.len() >= cap / 8;
+    let prefix_compat = |x: &[u8], y: &[u8]| x.starts_with(y) || y.starts_with(x);
+    if long_forced {
+        // force_bytes() forces at most step_max_items bytes per call (forcing fewer bytes is
+        // always allowed): for grammars that force (nearly) unbounded text the amount reported
+        // depends on where earlier calls stopped; only prefix-compatibility is required then
+        if let (Some(x), Some(y)) = (&a.ff_bytes, &b.ff_bytes) {
+            if !prefix_compat(x, y) {
+                return Some(("ff_bytes".into(), format!("{la} and {lb} forced bytes are not prefix-compatible")));
+            }
+        }
+        return None;
+    }
     if a.ff_tokens != b.ff_tokens {
         return Some((
             "ff_tokens".into(),
@@ -179,6 +197,44 @@ impl<'a> Exec<'a> {
                 _ => None,
             },
             _ => None,
+        }
+    }
+
+    /// Fault-injecting runs only: has a lexer/parser limit error been latched in this handle
+    /// (sticky error flag set by an earlier operation) without having been reported yet?
+    /// Results obtained in that window are "in flight" and not judged.
+    fn limit_error_latched(&mut self, h: SlotId) -> bool {
+        if self.fault_free() {
+            return false;
+        }
+        let g = self.slots[&h].lexer_group;
+        if self.ctx.group_lexer_err(g) || self.ctx.group_poisoned(g) {
+            return true;
+        }
+        let nv = self.ctx.n_vocab();
+        let mut cl = self.mh(h).clone_handle(false);
+        if cl.is_error() {
+            return true;
+        }
+        // commit checks the sticky error flags before doing anything else
+        let t = match cl.compute_mask_or_eos(nv) {
+            Ok(m) => set_bits(&m).first().copied(),
+            Err(e) => return classify_err(&e.to_string()) == ErrClass::Limit,
+        };
+        match t {
+            Some(t) => match cl.consume_tokens(&[t]) {
+                Err(e) => {
+                    let c = classify_err(&e.to_string());
+                    if c == ErrClass::Limit {
+                        self.stats.probe("limit_error_latched_unreported");
+                        true
+                    } else {
+                        false
+                    }
+                }
+                Ok(()) => false,
+            },
+            None => false,
         }
     }
 
@@ -296,7 +352,7 @@ impl<'a> Exec<'a> {
             if !ok {
                 // in fault-injecting runs a lexer error entered during this check makes
                 // validate/commit results "in flight"
-                if !self.fault_free() && (lexer_err_before || self.ctx.group_lexer_err(self.slots[&h].lexer_group)) {
+                if !self.fault_free() && (lexer_err_before || self.limit_error_latched(h)) {
                     return self.skip("lexer_error_in_flight");
                 }
                 let sig = match (m, v, c) {
@@ -386,7 +442,7 @@ impl<'a> Exec<'a> {
             }
         }
         if n != k {
-            if !self.fault_free() && self.ctx.group_lexer_err(self.slots[&h].lexer_group) {
+            if self.limit_error_latched(h) {
                 return self.skip("lexer_error_in_flight");
             }
             return Err(self.viol(
@@ -454,9 +510,14 @@ impl<'a> Exec<'a> {
             }
         }
         // fault-injecting runs: only a successfully returned mask is judged (bit for bit)
+        if self.keep_log {
+            self.log.push(format!("      handle obs: {:?}", oh.mask.as_ref().map(|m| { let b = set_bits(m); (b.len(), b[..b.len().min(16)].to_vec()) })));
+            self.log.push(format!("      fresh  obs: {:?}", or.mask.as_ref().map(|m| { let b = set_bits(m); (b.len(), b[..b.len().min(16)].to_vec()) })));
+        }
         if let Some((field, d)) = obs_diff(&oh, &or, "handle", "fresh", lexer_err || poisoned || !self.fault_free()) {
-            let rolled = self.stats.rollbacks > 0;
-            let _ = rolled;
+            if self.limit_error_latched(h) {
+                return self.skip("limit_error_in_flight");
+            }
             return Err(self.viol(
                 "fresh_equivalence",
                 &format!("differs_from_fresh:{field}"),
@@ -481,7 +542,8 @@ impl<'a> Exec<'a> {
                             }
                         }
                         Err(e) => {
-                            if self.fault_free() {
+                            // a documented resource-limit stop is a legitimate outcome at any time
+                            if self.fault_free() && classify_err(&e.to_string()) != ErrClass::Limit {
                                 return Err(self.viol(
                                     "mask_idempotent",
                                     &format!("mask_failed:{lbl}"),
@@ -935,6 +997,29 @@ impl<'a> Exec<'a> {
             }
         }
         self.stats.masks += obs.len() as u64;
+        // a member that hit a documented resource limit (the engines differ in cost) is out of the
+        // comparison; it stays failed
+        let mut limited = false;
+        for (g, o, _, _) in &obs {
+            if o.error || o.mask_err == Some(ErrClass::Limit) {
+                let e = match &mut self.slots.get_mut(g).unwrap().h {
+                    H::M(m) => m.get_error(),
+                    _ => None,
+                };
+                let already = self.slots[g].failed.is_some();
+                if let Some(e) = e {
+                    if classify_err(&e) == ErrClass::Limit || already {
+                        limited = true;
+                        if !already {
+                            self.on_matcher_err(*g, "observe", &e, true)?;
+                        }
+                    }
+                }
+            }
+        }
+        if limited {
+            return self.skip("mirror_member_hit_limit");
+        }
         for j in 1..obs.len() {
             if obs[0].3 != obs[j].3 {
                 return Err(self.viol(
@@ -1025,7 +1110,8 @@ impl<'a> Exec<'a> {
         if !ft.is_empty() {
             let mut cl = self.mh(h).clone_handle(true);
             if let Err(e) = cl.consume_tokens(&ft) {
-                if classify_err(&e.to_string()) == ErrClass::Misuse || self.fault_free() {
+                let c = classify_err(&e.to_string());
+                if c == ErrClass::Misuse || (self.fault_free() && c != ErrClass::Limit) {
                     return Err(self.viol(
                         "ff_tokens_accepted",
                         "ff_tokens_rejected",
